@@ -60,6 +60,12 @@ def cases(thorough):
         for opname in ("neg", "pow2", "rmul", "np.sqrt", "np.add", "np.concatenate", "getitem_slice", "copy", "alias:add_vv"):
             yield {"block": "other", "nvec": nvec, "op": opname, "u1": "m", "u2": "cm", "dt": "f8", "shape": "3", "construct": "late"}
         yield {"block": "norm", "nvec": nvec, "u1": "m", "dt": "f8", "shape": "3", "construct": "late"}
+    for opname in list(ARITH)[:4] + list(CMPS)[:2]:
+        for kind in RHS_KINDS:
+            yield {"block": "binary", "nvec": 3, "op": opname, "kind": kind, "u1": "m", "u2": "cm", "dt": "f8", "shape": "3", "construct": "late-z-first"}
+    for opname in ("neg", "pow2", "rmul", "np.sqrt", "np.add", "np.concatenate", "getitem_slice", "copy", "alias:add_vv"):
+        yield {"block": "other", "nvec": 3, "op": opname, "u1": "m", "u2": "cm", "dt": "f8", "shape": "3", "construct": "late-z-first"}
+    yield {"block": "norm", "nvec": 3, "u1": "m", "dt": "f8", "shape": "3", "construct": "late-z-first"}
     lat = [-1, 0, 2]
     vecs = [v for v in itertools.product(lat, repeat=3)]
     upairs = [("m", "m"), ("m", "cm"), ("cm", "km"), ("g", "M_sun"), ("m", "s")]
@@ -67,6 +73,12 @@ def cases(thorough):
         for a in vecs[:: (1 if thorough else 2)]:
             for b in vecs[:: (1 if thorough else 3)]:
                 yield {"block": "products", "a": list(a), "b": list(b), "u1": u1, "u2": u2}
+    # ... with the first operand assembled one component at a time, in and out of the order x, y, z
+    for (u1, u2) in upairs[:2]:
+        for a in vecs[::4]:
+            for b in vecs[::5]:
+                for construct in ("late", "late-z-first", "late-replaced"):
+                    yield {"block": "products", "a": list(a), "b": list(b), "u1": u1, "u2": u2, "construct": construct}
     for nv in (1, 2):
         yield {"block": "products_lowdim", "nvec": nv, "u1": "m", "u2": "cm"}
 
@@ -80,6 +92,10 @@ def make_vec(nvec, shape, dt, unit, which):
     comps = [_arr.values_for(shape, dt, 0, which) + dt(i * 10) for i in range(nvec)]
     if _LATE and nvec > 1:
         v = osyris.Vector(comps[0].copy(), unit=unit)
+        if nvec > 2 and _LATE == "z-first":
+            v.z = osyris.Array(comps[2].copy(), unit=unit)
+            v.y = osyris.Array(comps[1].copy(), unit=unit)
+            return v, comps
         v.y = osyris.Array(comps[1].copy(), unit=unit)
         if nvec > 2:
             v.z = osyris.Array(comps[2].copy(), unit=unit)
@@ -154,7 +170,7 @@ def compare_lifted(acc, idx, c, label, vec_result, comp_results, must_raise=Fals
 
 def run_case(acc, idx, c):
     global _LATE
-    _LATE = c.get("construct") == "late"
+    _LATE = {"late": True, "late-z-first": "z-first"}.get(c.get("construct"), False)
     try:
         return _run_case(acc, idx, c)
     finally:
@@ -307,6 +323,20 @@ def _run_case(acc, idx, c):
         a, b = np.array(c["a"], dtype=float), np.array(c["b"], dtype=float)
         va = V_(*[np.array([x, 2 * x + 1]) for x in a], unit=c["u1"])
         vb = V_(*[np.array([y, y - 3]) for y in b], unit=c["u2"])
+        how = c.get("construct")
+        if how:
+            ca = [osyris.Array(np.array([x, 2 * x + 1]), unit=c["u1"]) for x in a]
+            va = V_(ca[0].values.copy(), unit=c["u1"])
+            if how == "late":
+                va.y, va.z = ca[1], ca[2]
+            elif how == "late-z-first":
+                va.z = ca[2]
+                va.y = ca[1]
+            else:
+                # components set, then set again (the first value of y is replaced)
+                va.y = ca[2]
+                va.z = ca[2]
+                va.y = ca[1]
         A3 = np.stack([np.array([x, 2 * x + 1]) for x in a], axis=-1)
         B3 = np.stack([np.array([y, y - 3]) for y in b], axis=-1)
         s1, d1, t1 = _arr.uinfo(c["u1"])
